@@ -379,6 +379,18 @@ GROUPS = {
         nontrivial='challenges of at least two bytes',
         functions=['serve_no_content_handler', 'is_challenge_char'],
     ),
+    # second line behind the Verus units packet_store / dns_zone / signed_packet (C37): the real store with its hook on
+    'packet_store_cx': dict(
+        cargo='packet_store', binary='verif-packet-store', unit='(cargo) packet_store/src/main.rs', props=['C37'],
+        rustflags='--cfg n0_computer_iroh_verif', target_suffix='verifcfg',
+        files='iroh-dns-server/src/store/signed_packets.rs, iroh-dns-server/src/store.rs',
+        bounds=dict(quick=['3', '0'], thorough=['5', '0']),
+        space='every sequence (with repetition) of at most {0} publishes of five packets of one key — timestamps 1000, 2000, 2000 with another payload, 3000, 4000 — against a '
+              'fresh in-memory store, once with all publishes inside one write transaction and once with a transaction per publish, a second key\'s packet published in '
+              'between; after every publish the reply and the stored packet are compared with the rule',
+        nontrivial='sequences of at least three publishes',
+        functions=['SignedPacketStore::{open, upsert, get}', 'Actor::{run, handle_message}', 'Tables', 'serialize / deserialize / get_packet'],
+    ),
     # second line behind the Verus unit hooks
     'hooks_bx': dict(
         unit='hooks.rs', props=['C42'],
